@@ -44,6 +44,11 @@ Direct oracles (failing-input search):
   * (Caching)FileSystemLoader over two or three search paths, same-named files
     added to / removed from EARLIER directories between renders: equal to a new
     loader over the same directories;
+  * loaders that supply matter and keep their matter dicts: partials rendered with
+    arguments / `with x as y` / `for`, then without; matter deep-compared after
+    every step;
+  * every class-instance filter called with its optional arguments and then with
+    the defaults on shared Environments (oracle-only stream);
   * analysis steps (with every helper built on them, sync / async) of templates
     that include / render / extend a cached template the caller holds with its
     own globals, followed by renders of every held Template;
@@ -749,6 +754,8 @@ def _handle(req: tuple) -> Any:
         for _ in range(2000 if thorough else 170):
             hist.append(gen_history(r, 10 if thorough else 6))
         return hist
+    if req[0] == "matterfresh":
+        return matter_fresh(*req[1:])
     if req[0] == "rawrender":
         return raw_fresh(*req[1:])
     if req[0] == "trace":
@@ -1773,46 +1780,31 @@ def run_shadow_scenario(sc: dict[str, Any]) -> list[dict[str, Any]]:
                 out.append({"obs": obs, "name": name, "files": inputs, "data": st[2], "async": st[3], "tick": 0,
                             "fetch_failed": isinstance(t, tuple), "backward_edits_so_far": 0,
                             "earlier_meanings": {n: len(ps) - 1 for n, ps in seen.items() if len(ps) > 1},
-                            "versions": {n: list(ps) for n, ps in seen.items()},
-                            "once_effective_markers": set().union(*[_markers(p) for ps in seen.values() for p in ps])})
+                            })
         return out
     finally:
         loop.close()
         shutil.rmtree(root, ignore_errors=True)
 
 
-_MARK = re.compile(r"<[a-z0-9]+@\d+\.\d+>")
-
-
-def _markers(p: list[tuple]) -> set[str]:
-    out: set[str] = set()
-    for o in p:
-        if o[0] == "T":
-            out |= set(_MARK.findall(o[1]))
-        elif o[0] in ("Cap", "M", "B"):
-            out |= _markers(o[2])
-    return out
-
-
-def explained_by_stale_resolution(st: dict[str, Any]) -> bool:
-    """Is the observation made only of versions that each were, at some moment
-    of the scenario, what their name meant (the known finding: a cached
-    template is only re-validated against the file it was read from, so a name
-    may still mean the file it meant earlier)?  Every version carries a unique
-    marker text."""
-    if st["obs"][0] == "text":
-        return set(_MARK.findall(st["obs"][1])) <= st["once_effective_markers"]
-    # an error: try the earlier meanings of the names that changed (bounded)
-    import itertools
-
-    alts = [(n, ps) for n, ps in st["versions"].items() if len(ps) > 1][:5]
-    for combo in itertools.islice(itertools.product(*[ps for _, ps in alts]), 96):
-        files = dict(st["files"])
-        for (n, _), p in zip(alts, combo):
-            files[n] = p
-        if fs_fresh_render({k: src_of(p) for k, p in files.items()}, st["name"], st["data"], False, st["tick"]) == st["obs"]:
-            return True
-    return False
+# The witness of the FIXED finding caching-fs-loader-ignores-shadowing-file (e2f7d6d): run first
+# on every run, with a caching loader; like every scenario of this stream it must equal a new
+# loader over the same directories.
+_D = [("x", ("s", "dx")), ("arr", ("l", ["a", "b", "c"]))]
+SHADOW_WITNESS: dict[str, Any] = {
+    "dirs": [{}, {"p": [("T", "<p@1.1>")], "m1": [("T", "<m1@1.2>"), ("Inc", "p"), ("Ren", "p")],
+                  "ba": [("T", "["), ("B", "b", [("T", "<b@1.3>"), ("Inc", "p")]), ("T", "]")],
+                  "ch": [("Ext", "ba"), ("B", "b", [("T", "<ch@1.4>"), ("Ren", "p")])]}],
+    "top": "m1", "caching": True,
+    "script": [("get", "m1", False), ("get", "ch", True), ("render", 0, _D, False), ("render", 1, _D, True),
+               ("put", 0, "p", [("T", "<p@0.5-override>")]),
+               ("render", 0, _D, False), ("render", 1, _D, False), ("render", 0, _D, True), ("render", 1, _D, True),
+               ("get", "p", False), ("render", 2, _D, False), ("get", "p", True), ("render", 3, _D, True),
+               ("put", 0, "ba", [("T", "("), ("B", "b", [("T", "<b@0.6-override>"), ("Inc", "p")]), ("T", ")")]),
+               ("render", 1, _D, False), ("get", "ch", False), ("render", 4, _D, True),
+               ("remove", 0, "p"), ("render", 0, _D, False), ("render", 1, _D, True), ("get", "p", False),
+               ("render", 5, _D, False), ("remove", 0, "ba"), ("render", 1, _D, False), ("render", 4, _D, True)],
+}
 
 
 # ---------------------------------------------------------------- overlapping async loads on a cold cache
@@ -2155,6 +2147,39 @@ RAW_SOURCES: list[str] = [
 ]
 
 
+# Every registered filter that is a class instance (state on the object would outlive the call):
+# called with its optional arguments, then with the defaults.
+FILTER_SOURCES: list[str] = [
+    "{{ obj | json: 2 }}", "{{ obj | json }}", "{{ arr | json: 4 }}|{{ arr | json }}",
+    "{{ objs | map: 'title' | join: ',' }}", "{{ objs | map: i => i.n | join: ',' }}",
+    "{{ objs | sort: 'n' | map: 'n' | join }}", "{{ nums | sort | join }}", "{{ objs | sort: i => i.title | map: 'n' | join }}",
+    "{{ objs | sort_natural: 'title' | map: 'n' | join }}", "{{ arr | sort_natural | join }}",
+    "{{ objs | sort_numeric: 'n' | map: 'n' | join }}", "{{ nums | sort_numeric | join }}",
+    "{{ objs | sum: 'n' }}", "{{ nums | sum }}", "{{ objs | sum: i => i.n }}",
+    "{{ objs | where: 'title', 'b' | map: 'n' | join }}", "{{ objs | where: 'ok' | map: 'n' | join }}",
+    "{{ objs | reject: 'title', 'b' | map: 'n' | join }}", "{{ objs | reject: 'ok' | map: 'n' | join }}",
+    "{{ objs | uniq: 'ok' | map: 'n' | join }}", "{{ dup | uniq | join }}",
+    "{{ objs | compact: 'title' | map: 'n' | join }}", "{{ dup | compact | join }}",
+    "{{ objs | find: 'title', 'a' | json }}", "{{ objs | find: 'ok' | json }}",
+    "{{ objs | find_index: 'title', 'a' }}", "{{ objs | find_index: 'ok' }}",
+    "{{ objs | has: 'title', 'zz' }}", "{{ objs | has: 'ok' }}",
+    "{{ 'Hello %(you)s' | t: you: v }}", "{{ 'Hello' | t }}", "{{ 'Hello' | t: 'ctx', you: 1 }}",
+    "{{ 'Hi %(n)s' | gettext: n: 2 }}", "{{ 'Hi' | gettext }}",
+    "{{ 'one' | ngettext: 'many %(c)s', 2, c: 7 }}", "{{ 'one' | ngettext: 'many', 1 }}",
+    "{{ 'x' | pgettext: 'c', k: 1 }}", "{{ 'x' | pgettext: 'c' }}", "{{ 'x' | npgettext: 'c', 'xs', 3, k: 1 }}", "{{ 'x' | npgettext: 'c', 'xs', 1 }}",
+    "{{ 1234567.891 | currency: group_separator: false }}", "{{ 1234567.891 | currency }}",
+    "{{ 1234567.891 | money: group_separator: false }}", "{{ 1234567.891 | money }}",
+    "{{ 1234567.891 | money_with_currency: group_separator: false }}", "{{ 1234567.891 | money_with_currency }}",
+    "{{ 1234567.891 | money_without_currency: group_separator: false }}", "{{ 1234567.891 | money_without_currency }}",
+    "{{ 1234567.891 | money_without_trailing_zeros: group_separator: false }}", "{{ 1234567.891 | money_without_trailing_zeros }}",
+    "{{ 1234567.891 | decimal: group_separator: false }}", "{{ 1234567.891 | decimal }}",
+    "{{ when | datetime: format: 'full' }}", "{{ when | datetime }}", "{{ when | datetime: format: 'short' }}",
+    "{{ 12 | unit: 'length-meter', format: 'long' }}", "{{ 12 | unit: 'length-meter' }}",
+    "{{ 12 | unit: 'length-kilometer', denominator: 2, denominator_unit: 'duration-hour', length: 'narrow' }}", "{{ 12 | unit: 'length-kilometer' }}",
+    "{% assign locale = 'de' %}{{ 1234.5 | decimal }}{{ 3 | currency }}", "{{ 1234.5 | decimal }}{{ 3 | currency }}",
+]
+
+
 def _raw_env(kind: int) -> Any:
     import liquid2
 
@@ -2162,7 +2187,10 @@ def _raw_env(kind: int) -> Any:
     return liquid2.Environment(loader=ld, auto_escape=(kind == 1), globals={"g": "G"})
 
 
-RAW_DATA = {"v": "<b>", "arr": ["p", "q", "r"]}
+RAW_DATA = {"v": "<b>", "arr": ["p", "q", "r"], "nums": [3, 1, 2], "dup": ["a", None, "a", "b"],
+            "obj": {"a": [1, 2], "b": "x"},
+            "objs": [{"title": "b", "n": 2, "ok": True}, {"title": "a", "n": 1, "ok": False}, {"title": None, "n": 3, "ok": True}],
+            "when": _dt.datetime(2001, 2, 3, 4, 5, 6)}
 
 
 def _raw_once(env: Any, src: str, is_async: bool, loop: asyncio.AbstractEventLoop) -> tuple:
@@ -2197,6 +2225,11 @@ def raw_stream(chk: C.Check, pristine: "Pristine", r: Any, rounds: int) -> tuple
         for _ in range(rounds):
             order = list(RAW_SOURCES)
             r.shuffle(order)
+            # the filter calls keep their order (optional arguments first, defaults after), in
+            # blocks spread over the shuffled sources
+            for i in range(0, len(FILTER_SOURCES), 6):
+                at = r.randint(0, len(order))
+                order[at:at] = FILTER_SOURCES[i:i + 6]
             for src in order:
                 kind = r.randrange(2)
                 is_async = r.random() < 0.4
@@ -2220,6 +2253,141 @@ def raw_stream(chk: C.Check, pristine: "Pristine", r: Any, rounds: int) -> tuple
         return n, n_fail
     finally:
         loop.close()
+
+
+# ---------------------------------------------------------------- loader matter that outlives a load (oracle only)
+
+_MP = "[{{ a }}|{{ y }}|{{ it }}|{{ forloop.index }}|{{ title }}|{{ m }}|{{ p.title }}]"
+MATTER_SOURCES: dict[str, str] = {
+    "p": _MP,
+    "pa": "{% assign title = 'changed' %}{% capture m %}c{% endcapture %}{% increment n %}{% decrement k %}<{{ title }}{{ m }}{{ n }}{{ a }}>",
+    "mid": "({% render 'p', a: a %}{% render 'pa' %})",
+    "t1": "{% render 'p', a: 1 %}", "t2": "{% render 'p' %}", "t3": "{% render 'p' with x as y %}",
+    "t4": "{% render 'p' for arr as it %}", "t4b": "{% render 'p' for arr %}", "t3b": "{% render 'p' with x %}",
+    "t5": "{% include 'p', a: 2 %}", "t6": "{% include 'p' %}",
+    "t7": "{% include 'p' with x as y %}{% include 'p' for arr as it %}",
+    "t8": "{{ title }}{% render 'p', title: 'arg', m: 'M' %}{{ title }}",
+    "t9": "{% render 'mid', a: 'deep' %}{% render 'mid' %}",
+    "t10": "{% render 'pa', a: 3, n: 9 %}{% render 'pa' %}{% include 'pa', a: 4 %}{% include 'pa' %}{{ title }}",
+    "t11": "{% macro mm a %}{% render 'p', a: a %}{% endmacro %}{% call mm 'viamacro' %}{% call mm %}{% render 'p' %}",
+    "t12": "{% for i in arr %}{% render 'p', a: i %}{% endfor %}{% render 'p' %}",
+}
+MATTERS: dict[str, dict[str, Any]] = {
+    "p": {"title": "P-title", "m": [1, 2]}, "pa": {"title": "PA", "m": "pm", "n": 5, "k": {"deep": [1]}},
+    "mid": {"a": "mid-matter"}, "t8": {"title": "T8"}, "t10": {"title": "T10"}, "t2": {},
+}
+MATTER_DATA = {"x": "X", "arr": ["u", "v"]}
+MATTER_KINDS = ["DictLoader", "CachingDictLoader", "FileSystemLoader", "CachingFileSystemLoader"]
+
+
+def _matter_loader(kind: int, matters: dict[str, dict[str, Any]], root: str | None) -> Any:
+    """A loader that supplies (front) matter and KEEPS its matter dicts: the same
+    dict object is handed out on every load of the name."""
+    import liquid2
+    from liquid2.loader import TemplateSource
+
+    base = getattr(liquid2, MATTER_KINDS[kind])
+
+    class M(base):  # type: ignore[misc,valid-type]
+        def get_source(self, env, template_name, *, context=None, **kwargs):  # type: ignore[no-untyped-def]
+            s = super().get_source(env, template_name, context=context, **kwargs)
+            return TemplateSource(s.source, s.name, s.uptodate, matters.get(template_name))
+
+        async def get_source_async(self, env, template_name, *, context=None, **kwargs):  # type: ignore[no-untyped-def]
+            s = await super().get_source_async(env, template_name, context=context, **kwargs)
+            return TemplateSource(s.source, s.name, s.uptodate, matters.get(template_name))
+
+    M.__name__ = "Matter" + base.__name__
+    if root is None:
+        return M(dict(MATTER_SOURCES))
+    _write_tree(root, MATTER_SOURCES, 0)
+    return M(root)
+
+
+def _matter_once(env: Any, name: str, is_async: bool, loop: asyncio.AbstractEventLoop) -> tuple:
+    d = dict(MATTER_DATA)
+    try:
+        t = loop.run_until_complete(env.get_template_async(name)) if is_async else env.get_template(name)
+    except Exception as e:  # noqa: BLE001
+        return ("fetch",) + exc_obs(e)
+    return _call(loop, lambda: t.render(**d), lambda: t.render_async(**d), is_async)
+
+
+def matter_fresh(kind: int, auto: bool, name: str, is_async: bool) -> tuple:
+    import copy
+
+    import liquid2
+
+    root = _scratch() if kind >= 2 else None
+    loop = asyncio.new_event_loop()
+    try:
+        CLOCK.k = 0
+        env = liquid2.Environment(loader=_matter_loader(kind, copy.deepcopy(MATTERS), root), auto_escape=auto)
+        return _matter_once(env, name, is_async, loop)
+    finally:
+        loop.close()
+        if root is not None:
+            shutil.rmtree(root, ignore_errors=True)
+
+
+def matter_stream(chk: C.Check, pristine: "Pristine", r: Any, rounds: int) -> int:
+    """Partials with loader matter, rendered with arguments / `with x as y` /
+    `for`, then without, on one Environment per loader kind: each render equals
+    a new Environment in a pristine process, and the loader's matter dicts (and
+    the overlay_data of every Template the loader caches) are deep-equal to the
+    original after every step."""
+    import copy
+
+    import liquid2
+
+    n = 0
+    for kind in range(len(MATTER_KINDS)):
+        auto = r.random() < 0.3
+        root = _scratch() if kind >= 2 else None
+        loop = asyncio.new_event_loop()
+        try:
+            CLOCK.k = 0
+            matters = copy.deepcopy(MATTERS)
+            loader = _matter_loader(kind, matters, root)
+            env = liquid2.Environment(loader=loader, auto_escape=auto)
+            for _ in range(rounds):
+                order = [x for x in MATTER_SOURCES if x != "mid"]
+                r.shuffle(order)
+                # arguments first, then the same partial without: t1 t2, t3 t2, t4 t2 ... somewhere in the order
+                order += ["t1", "t2", "t3", "t6", "t4", "t2", "t10", "pa", "t8", "p"]
+                for name in order:
+                    is_async = r.random() < 0.4
+                    got = _matter_once(env, name, is_async, loop)
+                    n += 1
+                    replay = {"loader": "Matter" + MATTER_KINDS[kind], "template": name, "async": is_async, "auto_escape": auto,
+                              "sources": MATTER_SOURCES, "matter": MATTERS, "data": MATTER_DATA,
+                              "how": "harness/c09.py matter_stream / matter_fresh"}
+                    if matters != MATTERS:
+                        bad = [k for k in MATTERS if matters.get(k) != MATTERS[k]]
+                        chk.finding("matter:changed-by-render",
+                                    f"after rendering {name!r} the matter the loader keeps for {bad} is {[matters.get(k) for k in bad]}, "
+                                    f"it was {[MATTERS[k] for k in bad]}", replay)
+                        matters.clear()
+                        matters.update(copy.deepcopy(MATTERS))
+                    cache = getattr(loader, "cache", None)
+                    if cache is not None:
+                        for key in list(cache):
+                            t = cache._cache[key]
+                            if dict(t.overlay_data) != MATTERS.get(key, {}):
+                                chk.finding("matter:cached-template-overlay-changed",
+                                            f"after rendering {name!r} the cached template {key!r} has overlay_data "
+                                            f"{dict(t.overlay_data)}, the loader's matter is {MATTERS.get(key, {})}", replay)
+                    exp = pristine.call(("matterfresh", kind, auto, name, is_async))
+                    if exp != got:
+                        chk.finding("matter:differs-from-fresh",
+                                    f"{name!r} ({MATTER_SOURCES[name]!r}) on a shared Environment whose loader keeps its matter dicts "
+                                    f"gives {got}; a new Environment in a pristine process gives {exp}",
+                                    dict(replay, shared=got, pristine=exp))
+        finally:
+            loop.close()
+            if root is not None:
+                shutil.rmtree(root, ignore_errors=True)
+    return n
 
 
 # ---------------------------------------------------------------- classification
@@ -2417,9 +2585,9 @@ def _main(chk: C.Check, pristine: Pristine) -> None:
             items.append({"case": case, "model": model,
                           "replay": {"fs_render": st["name"], "files": srcs, "implementation": st["obs"]}})
     # several search paths: overrides added to / removed from earlier directories
-    n_sh = n_sh_changed = n_sh_known = 0
-    for _ in range(300 if thorough else 18):
-        sc = shadow_scenario(r)
+    n_sh = n_sh_changed = 0
+    for si in range(300 if thorough else 18):
+        sc = SHADOW_WITNESS if si == 0 else shadow_scenario(r)
         for st in run_shadow_scenario(sc):
             n_sh += 1
             n_sh_changed += bool(st["earlier_meanings"])
@@ -2435,11 +2603,7 @@ def _main(chk: C.Check, pristine: Pristine) -> None:
                 what = (f"{st['name']} through a {replay['loader']} over {len(sc['dirs'])} search paths, after a same-named file was "
                         f"added to / removed from an earlier directory, gives {st['obs']}; a new loader over the same directories "
                         f"gives {fr}")
-                if sc["caching"] and fr == pr and explained_by_stale_resolution(st):
-                    n_sh_known += 1
-                    chk.finding("caching-fs-loader-ignores-shadowing-file", what, replay)
-                else:
-                    chk.finding("fs-shadow:differs-from-fresh", what + f" (pristine process: {pr})", replay)
+                chk.finding("fs-shadow:differs-from-fresh", what + f" (pristine process: {pr})", replay)
                 continue
             ops_m, exp_m = fs_case(st)
             case, model = c_case(ops_m, exp_m)
@@ -2447,7 +2611,6 @@ def _main(chk: C.Check, pristine: Pristine) -> None:
                           "replay": {"shadow_render": st["name"], "files": srcs, "implementation": st["obs"]}})
     dist["shadow-renders"] = n_sh
     dist["shadow-renders-after-a-name-changed-meaning"] = n_sh_changed
-    dist["shadow-renders-explained-by-known-finding"] = n_sh_known
 
     # overlapping async loads on a cold caching loader, different globals per task
     n_conc = n_conc_collide = 0
@@ -2515,6 +2678,9 @@ def _main(chk: C.Check, pristine: Pristine) -> None:
     dist["choice-loader-fault-free-steps-on-duplicate-names"] = n_choice_dup
     dist["concurrent-tasks"] = n_conc
     dist["concurrent-cold-waves-loading-one-name-twice"] = n_conc_collide
+    n_matter = matter_stream(chk, pristine, r, 3 if thorough else 1)
+    n_pristine += n_matter
+    dist["matter-renders"] = n_matter
     n_raw, n_raw_fail = raw_stream(chk, pristine, r, 8 if thorough else 3)
     n_pristine += n_raw
     dist["raw-sources-run"] = n_raw
